@@ -135,13 +135,21 @@ def gen(args) -> list:
                 for kk, v in ym.items():
                     if v:
                         p = getattr(Period, "from_" + kk)(v) + p
-            ev = {"op": "ldt_period", "day": day, "cal": cal.id, "min_day": lo, "max_day": hi, "t": tt(nod), "weeks": amts["weeks"],
+            minus = rnd.random() < 0.4
+            if minus:
+                # subtracting a period adds the negated components, in the same order: the event logs the effective amounts
+                amts = {kk: -v for kk, v in amts.items()}
+                ym = {kk: -v for kk, v in ym.items()}
+            ev = {"op": "ldt_period", "minus": minus, "day": day, "cal": cal.id, "min_day": lo, "max_day": hi, "t": tt(nod), "weeks": amts["weeks"],
                   "years": ym["years"], "months": ym["months"], "ymd": [ldt.year, ldt.month, ldt.day], "arith": cal.id in ARITH,
                   "days": amts["days"], "h": proj.amount_digits("hours", amts["hours"]), "mi": proj.amount_digits("minutes", amts["minutes"]),
                   "s": proj.amount_digits("seconds", amts["seconds"]), "ms": proj.amount_digits("milliseconds", amts["milliseconds"]),
                   "tk": proj.amount_digits("ticks", amts["ticks"]), "ns": proj.amount_digits("nanoseconds", amts["nanoseconds"])}
             try:
-                r = rnd.choice([lambda: ldt + p, lambda: ldt.plus(p), lambda: LocalDateTime.add(ldt, p)])()
+                if minus:
+                    r = rnd.choice([lambda: ldt - p, lambda: ldt.minus(p), lambda: LocalDateTime.subtract(ldt, p)])()
+                else:
+                    r = rnd.choice([lambda: ldt + p, lambda: ldt.plus(p), lambda: LocalDateTime.add(ldt, p)])()
                 rn = r.nanosecond_of_day
                 ev["res"] = [r.date._days_since_epoch, rn // 10**9, rn % 10**9]
             except Exception as e:  # noqa: BLE001
